@@ -504,7 +504,7 @@ class WriteAllFut:
 def poll_write_any(I, wref, cx, chunk):
     tgt = peel(wref)
     if isinstance(tgt, AsyncFileObj):
-        return READY(wrap(I, lambda: F.op_write(I, tgt.f, chunk.sb)))
+        return READY(tgt.write(I, chunk.sb))
     return I.call_trait_method("AsyncWrite", "poll_write", [mk_pin(wref), cx, chunk])
 
 
@@ -522,7 +522,7 @@ def _awrite(I, a, d):
 def poll_flush_any(I, wref, cx, meth="poll_flush"):
     tgt = peel(wref)
     if isinstance(tgt, AsyncFileObj):
-        return READY(OK(UNIT))
+        return READY(tgt.flush(I))
     return I.call_trait_method("AsyncWrite", meth, [mk_pin(wref), cx])
 
 
@@ -630,13 +630,41 @@ def _aread_to_end(I, a, d):
 # -- async File objects
 
 class AsyncFileObj:
-    """async_std::fs::File / tokio::fs::File wrapping the VFS file."""
+    """async_std::fs::File / tokio::fs::File wrapping the VFS file.
+    async-std buffers writes in the File object: write() only copies, flush() performs the write(2), a
+    failed flush keeps the data, and dropping the File flushes once more (errors ignored).  tokio hands
+    each write to the blocking pool and does not retry."""
     rust_type = "AsyncFile"
 
     def __init__(self, f):
         self.f = f
+        self.pending = SBytes()
+
+    def buffered(self, I):
+        return I.prog.flavour == "async-std"
+
+    def write(self, I, data):
+        if self.buffered(I):
+            self.pending = self.pending + data
+            return OK(data.length())
+        return wrap(I, lambda: F.op_write(I, self.f, data))
+
+    def flush(self, I):
+        if self.pending.segs:
+            data = self.pending
+            r = wrap(I, lambda: F.op_write(I, self.f, data))
+            if r.vname == "Err":
+                return r
+            self.pending = SBytes()
+        return OK(UNIT)
 
     def rust_drop(self, I):
+        if self.pending.segs:
+            try:
+                self.flush(I)
+            except RustPanic:
+                pass
+            self.pending = SBytes()
         self.f.closed = True
 
 
@@ -659,12 +687,12 @@ def _afile_poll_read(I, a, d):
 def _afile_poll_write(I, a, d):
     f = pin_target(a[0])
     data = as_sbytes(a[2])
-    return READY(wrap(I, lambda: F.op_write(I, f.f, data)))
+    return READY(f.write(I, data))
 
 
 @T.trait("AsyncWrite", "poll_flush", r"fs::File$")
 def _afile_poll_flush(I, a, d):
-    return READY(OK(UNIT))
+    return READY(pin_target(a[0]).flush(I))
 
 
 def _afut(thunk, name=""):
@@ -790,7 +818,9 @@ class LinesStream:
             try:
                 data = F.op_read_all(I, f)
             except FsErr as e:
-                self.items = []
+                # like std's Lines, the async line streams are not fused on errors: a persistent error
+                # (the path is a directory, ...) is yielded again on every poll
+                I.w.tick(50)
                 return READY(SOME(ERR(io_err(e.kind, e.injected))))
             self.items = F.lines_of(I, data)
         if self.items:
